@@ -460,6 +460,217 @@ example :
       | _ => false) = true ∧
     (Bt.freshState exProg4 0).loops = #[{ iters := 0, entry := 0 }] := by decide +kernel
 
+/-! ## Without `noIcaseBackref`: the ordering certificate
+
+`checkOrd prog c` (see `SafetyCommon`): a data-flow certificate `c` (per reachable instruction and
+group: *clean* / *open* / *unknown*), checked locally, from which `start ≤ end` follows for every
+group at every reachable configuration — which makes the unchecked slice of `backref_icase` safe.
+`mkOrd prog` computes the canonical certificate. Together with `Bt.lookConfined` (look-around bodies
+closed, writing only their own groups) this removes the restriction on `BackRef { icase: true }`,
+and additionally yields: every reported capture has `start ≤ end`, and a failed attempt restores the
+groups. The attempt must start with all groups unset (as `BacktrackExecutor` and `PikeVMExecutor`
+do: fresh state, `successful_match` clears the groups, a failed attempt restores them). -/
+
+/-- The complete decidable well-formedness hypothesis. -/
+def wfProgFull (prog : Prog) : Bool :=
+  wfProg prog && checkCert prog (mkCert prog) && Bt.lookConfined prog && checkOrd prog (mkOrd prog)
+
+theorem caps_ordered {st : Bt.State}
+    (h : ∀ (g : Nat) (gd : Bt.GroupData), st.groups[g]? = some gd → Ordered gd) :
+    ∀ s e, some (s, e) ∈ Bt.capsOf st → s ≤ e := by
+  intro s e hm
+  simp only [Bt.capsOf, List.mem_map] at hm
+  obtain ⟨gd, hgd, hr⟩ := hm
+  rw [Array.mem_toList_iff, Array.mem_iff_getElem?] at hgd
+  obtain ⟨i, hi⟩ := hgd
+  have ho := h i gd hi
+  unfold Bt.GroupData.asRange at hr
+  split at hr
+  · rename_i s' e' h1 h2; cases hr; exact ho _ _ h1 h2
+  · cases hr
+
+/-- Generic form for the backtracking executor. -/
+theorem bt_safe_of_spec {prog : Prog} {inp : Input} {A : Bool → Nat → Nat → Prop} {V : Nat → Prop}
+    (hs : Spec prog inp A V) (hw : wfProg prog = true) {c : OrdCert} (hchk : checkOrd prog c = true)
+    (hlc : Bt.lookConfined prog = true) {pos : Nat} (hA : A true 0 pos) {st : Bt.State}
+    (hst : Bt.StateOK prog V st)
+    (hclean : ∀ (g : Nat) (gd : Bt.GroupData), st.groups[g]? = some gd → gd = ⟨none, none⟩)
+    (sf limit : Nat) :
+    Bt.Post (fun e st' => pos ≤ e ∧ V e ∧ Bt.StateOK prog V st' ∧
+        ∀ s e', some (s, e') ∈ Bt.capsOf st' → V s ∧ V e' ∧ s ≤ e')
+      (fun st' => Bt.StateOK prog V st' ∧ st'.groups = st.groups)
+      (Bt.run prog inp limit sf 0 pos true st #[.exhausted] 0 0) := by
+  have := Bt.run_safe_ord hs hw hchk hlc limit sf (pos, (none, st.groups)) 0 pos true st
+    #[.exhausted] 0 0 (Bt.tinv_init (wf_size_pos hw) hchk hA hst hclean)
+  refine Bt.Post.mono this ?_ (fun _ h => h)
+  intro e st' h
+  obtain ⟨⟨hv, hb, hst'⟩, _, hord⟩ := h
+  exact ⟨hb.1 rfl, hv, hst', fun s e' hm =>
+    ⟨(caps_ok hst' s e' hm).1, (caps_ok hst' s e' hm).2, caps_ordered hord s e' hm⟩⟩
+
+/-- Generic form for the PikeVM. -/
+theorem pk_safe_of_spec_ord {prog : Prog} {inp : Input} {A : Bool → Nat → Nat → Prop} {V : Nat → Prop}
+    (hs : Spec prog inp A V) (hw : wfProg prog = true) {c : OrdCert} (hchk : checkOrd prog c = true)
+    (hlc : Bt.lookConfined prog = true) {pos : Nat} (hA : A true 0 pos) (entry fuel : Nat) :
+    match Pk.attemptAt prog inp fuel pos entry with
+    | .error _ => False
+    | .matched e st _ _ => pos ≤ e ∧ V e ∧ e = st.pos ∧
+        ∀ s e', some (s, e') ∈ Pk.capsOf st → V s ∧ V e' ∧ s ≤ e'
+    | _ => True := by
+  have hinit : Pk.PT prog A V c (pos, (none, (Pk.initState prog pos entry).groups)) true
+      (Pk.initState prog pos entry) := by
+    refine ⟨⟨hA, MovedLe.refl _ _, initState_ok prog _ pos entry⟩, trivial, ⟨rfl, fun _ _ => rfl⟩, ?_⟩
+    simp only [checkOrd, Bool.and_eq_true, beq_iff_eq] at hchk
+    refine ⟨_, hchk.1, ?_⟩
+    intro g gd hg
+    simp only [Pk.initState, Array.getElem?_replicate] at hg
+    split at hg
+    · cases hg
+      rename_i hlt
+      exact ⟨1, by simp [hlt], sem_reset _ _⟩
+    · cases hg
+  have := Pk.runStates_safe_ord hs hw hchk hlc fuel (fuel + 1) #[Pk.initState prog pos entry] true 0 0
+    (pos, (none, (Pk.initState prog pos entry).groups)) trivial (by
+      intro i s hi
+      have : i = 0 := by
+        have := lt_of_getElem?_eq_some hi; simp at this; omega
+      subst this
+      simp at hi; subst hi
+      exact hinit)
+  unfold Pk.attemptAt Pk.tryAtPos
+  cases hr : Pk.runStates prog inp fuel (fuel + 1) #[Pk.initState prog pos entry] true 0 0 with
+  | error e => rw [hr] at this; exact this.1
+  | matched e st _ _ =>
+    rw [hr] at this
+    obtain ⟨⟨h1, h2, h3, h4⟩, _, hord⟩ := this
+    have hcaps : ∀ s e', some (s, e') ∈ Pk.capsOf st → s ≤ e' :=
+      caps_ordered (st := { loops := st.loops, groups := st.groups }) hord
+    exact ⟨h3.1 rfl, h2, h1, fun s e' hm =>
+      ⟨(pk_caps_ok h4 s e' hm).1, (pk_caps_ok h4 s e' hm).2, hcaps s e' hm⟩⟩
+  | failed _ _ => trivial
+  | outOfFuel => trivial
+
+/-- **C06, ASCII input, backtracking executor, no restriction on the instructions.** No error;
+a match `[pos', e)`… ends at `pos ≤ e ≤ len`, every capture `(s, e')` has `s ≤ e' ≤ len`; a failed
+attempt restores the groups. -/
+theorem bt_safe_ascii_full {prog : Prog} {inp : Input} (hw : wfProg prog = true) {c : OrdCert}
+    (hchk : checkOrd prog c = true) (hlc : Bt.lookConfined prog = true) (hk : inp.kind = .ascii)
+    {pos : Nat} (hp : pos ≤ inp.len) {st : Bt.State} (hst : Bt.StateOK prog (· ≤ inp.len) st)
+    (hclean : ∀ (g : Nat) (gd : Bt.GroupData), st.groups[g]? = some gd → gd = ⟨none, none⟩)
+    (sf limit : Nat) :
+    Bt.Post (fun e st' => pos ≤ e ∧ e ≤ inp.len ∧ Bt.StateOK prog (· ≤ inp.len) st' ∧
+        ∀ s e', some (s, e') ∈ Bt.capsOf st' → s ≤ inp.len ∧ e' ≤ inp.len ∧ s ≤ e')
+      (fun st' => Bt.StateOK prog (· ≤ inp.len) st' ∧ st'.groups = st.groups)
+      (Bt.run prog inp limit sf 0 pos true st #[.exhausted] 0 0) :=
+  bt_safe_of_spec (specAscii hw hk) hw hchk hlc ⟨wf_size_pos hw, hp⟩ hst hclean sf limit
+
+/-- **C06, UTF-8 input, backtracking executor, no restriction** (phase certificate `cc` for the split
+literals, ordering certificate `c`). -/
+theorem bt_safe_utf8_full {prog : Prog} {inp : Input} {cs : List Nat} (hw : wfProg prog = true)
+    {cc : Cert} (hcc : checkCert prog cc = true) {c : OrdCert} (hchk : checkOrd prog c = true)
+    (hlc : Bt.lookConfined prog = true) (h : Utf8Text inp cs) {pos : Nat} (hp : VUtf8 inp pos)
+    {st : Bt.State} (hst : Bt.StateOK prog (VUtf8 inp) st)
+    (hclean : ∀ (g : Nat) (gd : Bt.GroupData), st.groups[g]? = some gd → gd = ⟨none, none⟩)
+    (sf limit : Nat) :
+    Bt.Post (fun e st' => pos ≤ e ∧ VUtf8 inp e ∧ Bt.StateOK prog (VUtf8 inp) st' ∧
+        ∀ s e', some (s, e') ∈ Bt.capsOf st' → VUtf8 inp s ∧ VUtf8 inp e' ∧ s ≤ e')
+      (fun st' => Bt.StateOK prog (VUtf8 inp) st' ∧ st'.groups = st.groups)
+      (Bt.run prog inp limit sf 0 pos true st #[.exhausted] 0 0) :=
+  bt_safe_of_spec (specUtf8Cert hw hcc h) hw hchk hlc (cert_start hw hcc h hp) hst hclean sf limit
+
+theorem freshState_clean (prog : Prog) (entry : Nat) :
+    ∀ (g : Nat) (gd : Bt.GroupData), (Bt.freshState prog entry).groups[g]? = some gd → gd = ⟨none, none⟩ := by
+  intro g gd h
+  simp only [Bt.freshState, Array.getElem?_replicate] at h
+  split at h <;> cases h
+  rfl
+
+/-- **C06 for one attempt of the backtracking executor on a fresh matcher** (UTF-8, decidable
+hypothesis `wfProgFull`). -/
+theorem bt_attemptFresh_safe_full {prog : Prog} {inp : Input} {cs : List Nat}
+    (hw : wfProgFull prog = true) (h : Utf8Text inp cs) {pos : Nat} (hp : VUtf8 inp pos) (fuel : Nat) :
+    Bt.Post (fun e st' => pos ≤ e ∧ VUtf8 inp e ∧
+        ∀ s e', some (s, e') ∈ Bt.capsOf st' → VUtf8 inp s ∧ VUtf8 inp e' ∧ s ≤ e')
+      (fun st' => st'.groups = (Bt.freshState prog 0).groups)
+      (Bt.attemptFresh prog inp fuel pos) := by
+  simp only [wfProgFull, Bool.and_eq_true] at hw
+  obtain ⟨⟨⟨h1, h2⟩, h3⟩, h4⟩ := hw
+  exact Bt.Post.mono (bt_safe_utf8_full h1 h2 h4 h3 h hp (freshState_ok prog _ 0)
+    (freshState_clean prog 0) fuel fuel) (fun _ _ h => ⟨h.1, h.2.1, h.2.2.2⟩) (fun _ h => h.2)
+
+/-- **C06, ASCII input, PikeVM, no restriction.** -/
+theorem pk_safe_ascii_full {prog : Prog} {inp : Input} (hw : wfProg prog = true) {c : OrdCert}
+    (hchk : checkOrd prog c = true) (hlc : Bt.lookConfined prog = true) (hk : inp.kind = .ascii)
+    {pos : Nat} (hp : pos ≤ inp.len) (entry fuel : Nat) :
+    match Pk.attemptAt prog inp fuel pos entry with
+    | .error _ => False
+    | .matched e st _ _ => pos ≤ e ∧ e ≤ inp.len ∧ e = st.pos ∧
+        ∀ s e', some (s, e') ∈ Pk.capsOf st → s ≤ inp.len ∧ e' ≤ inp.len ∧ s ≤ e'
+    | _ => True :=
+  pk_safe_of_spec_ord (specAscii hw hk) hw hchk hlc ⟨wf_size_pos hw, hp⟩ entry fuel
+
+/-- **C06, UTF-8 input, PikeVM, no restriction.** -/
+theorem pk_safe_utf8_full {prog : Prog} {inp : Input} {cs : List Nat} (hw : wfProg prog = true)
+    {cc : Cert} (hcc : checkCert prog cc = true) {c : OrdCert} (hchk : checkOrd prog c = true)
+    (hlc : Bt.lookConfined prog = true) (h : Utf8Text inp cs) {pos : Nat} (hp : VUtf8 inp pos)
+    (entry fuel : Nat) :
+    match Pk.attemptAt prog inp fuel pos entry with
+    | .error _ => False
+    | .matched e st _ _ => pos ≤ e ∧ VUtf8 inp e ∧ e = st.pos ∧
+        ∀ s e', some (s, e') ∈ Pk.capsOf st → VUtf8 inp s ∧ VUtf8 inp e' ∧ s ≤ e'
+    | _ => True :=
+  pk_safe_of_spec_ord (specUtf8Cert hw hcc h) hw hchk hlc (cert_start hw hcc h hp) entry fuel
+
+/-! ### Non-vacuity: case-insensitive back-references -/
+
+/-- Dump of `/(?:(é)|b)*?\1(?<=(É)\2)/i`: two `BackRef { icase: true }`, one of them inside a
+look-behind and *before* its group in execution order, a capture group reset in a loop. -/
+def exProg5 : Prog :=
+  { insns := #[.enterLoop 0 0 none false 9,
+      .resetCaptureGroup 0,
+      .alt 7,
+      .beginCaptureGroup 0,
+      .charSet [0xc9, 0xe9, 0xc9, 0xc9],
+      .endCaptureGroup 0,
+      .jump 8,
+      .byteSet [0x42, 0x62],
+      .loopAgain 0,
+      .backRef 0 true,
+      .lookbehind false 1 2 16,
+      .backRef 1 true,
+      .beginCaptureGroup 1,
+      .charSet [0xc9, 0xe9, 0xc9, 0xc9],
+      .endCaptureGroup 1,
+      .goal,
+      .goal],
+    brackets := #[],
+    loops := 1, groups := 2, flags := { icase := true }, names := [], startPred := .arbitrary }
+
+#guard (match parseProg "P~1~2~i-~-|S~arbitrary|I~enterloop~0~0~inf~0~9|I~reset~0|I~alt~7|I~begin~0|I~charset~c9~e9~c9~c9|I~end~0|I~jump~8|I~byteset~42~62|I~loopagain~0|I~backref~0~1|I~lookbehind~0~1~2~16|I~backref~1~1|I~begin~1|I~charset~c9~e9~c9~c9|I~end~1|I~goal|I~goal|" with
+  | .ok p => p == exProg5 | .error _ => false)
+
+example : noIcaseBackref exProg5 = false ∧ wfProgFull exProg5 = true := by decide +kernel
+
+example : wfProgFull exProg1 = true ∧ wfProgFull exProg2 = true ∧ wfProgFull exProg3 = true ∧
+    wfProgFull exProg4 = true := by decide +kernel
+
+/-- "éÉ" -/
+def exInp5 : Input := { kind := .utf8, bytes := Utf8.text [0xE9, 0xC9], unicode := false }
+
+theorem exInp5_text : Utf8Text exInp5 [0xE9, 0xC9] := ⟨rfl, rfl, by decide⟩
+
+#guard (match Bt.attemptFresh exProg5 exInp5 1000 0 with
+  | .matched e st _ _ => e == 4 && Bt.capsOf st == [some (0, 2), some (2, 4)] | _ => false)
+#guard (match Pk.attempt exProg5 exInp5 1000 0 with
+  | .matched e st _ _ => e == 4 && Pk.capsOf st == [some (0, 2), some (2, 4)] | _ => false)
+
+example (fuel : Nat) :
+    Bt.Post (fun e st' => 0 ≤ e ∧ VUtf8 exInp5 e ∧
+        ∀ s e', some (s, e') ∈ Bt.capsOf st' → VUtf8 exInp5 s ∧ VUtf8 exInp5 e' ∧ s ≤ e')
+      (fun st' => st'.groups = (Bt.freshState exProg5 0).groups)
+      (Bt.attemptFresh exProg5 exInp5 fuel 0) :=
+  bt_attemptFresh_safe_full (by decide +kernel) exInp5_text (by decide +kernel) fuel
+
 #print axioms bt_safe_ascii
 #print axioms bt_attemptFresh_safe_ascii
 #print axioms pk_safe_ascii
@@ -469,5 +680,10 @@ example :
 #print axioms bt_attemptFresh_safe_utf8
 #print axioms pk_safe_utf8
 #print axioms attempt_state_restored
+#print axioms bt_safe_ascii_full
+#print axioms bt_safe_utf8_full
+#print axioms bt_attemptFresh_safe_full
+#print axioms pk_safe_ascii_full
+#print axioms pk_safe_utf8_full
 
 end Regress.C06
